@@ -3,6 +3,8 @@ package main
 import (
 	"fmt"
 	"math/rand"
+	"sync"
+	"time"
 
 	dragonboat "github.com/lni/dragonboat/v4"
 	"github.com/lni/dragonboat/v4/client"
@@ -961,16 +963,33 @@ func (x *twinCtx) passConcurrent() bool {
 				}
 			}
 		}
+		var queued sync.WaitGroup
 		if x.kind == "concurrent" {
-			b.con.onSave = applyExtra
+			if extra > 0 && x.rng.Intn(2) == 0 {
+				// an apply batch is already waiting for the state machine's lock when PrepareSnapshot
+				// returns: it runs right after the section that fixes index, sessions and image, before
+				// anything else the save does
+				b.con.onPrepare = func() {
+					queued.Add(1)
+					go func() {
+						defer queued.Done()
+						applyExtra()
+					}()
+					time.Sleep(2 * time.Millisecond)
+				}
+				x.r.Count("saves_with_an_apply_batch_queued_behind_PrepareSnapshot", 1)
+			} else {
+				b.con.onSave = applyExtra
+			}
 		}
 		ss, err := b.save()
+		queued.Wait()
 		if err != nil {
 			x.fail("save-error", variant, cut, extra, tstate{}, tstate{}, err.Error())
 			return false
 		}
 		if x.kind == "concurrent" {
-			b.con.onSave = nil
+			b.con.onSave, b.con.onPrepare = nil, nil
 		}
 		if ss.Index != cut || ss.Term != x.ref[cut].Term {
 			x.fail("snapshot-meta", variant, cut, extra, x.ref[cut], tstate{Index: ss.Index, Term: ss.Term}, "snapshot metadata differs from the state at PrepareSnapshot")
